@@ -9,6 +9,9 @@ import EmitModel.Model.Text
 import EmitModel.Lemmas.HexId
 import EmitModel.Lemmas.TraceparentText
 import EmitModel.Lemmas.TimestampText
+import EmitModel.Lemmas.PathValid
+import EmitModel.Model.KindText
+import EmitModel.Thm.C17
 
 namespace EmitModel.C15
 open EmitModel.Text
@@ -313,5 +316,163 @@ example : parseRfc3339 (ascii "1970-01-01T00:00:00Z") = .ok 0 := by decide +kern
 example : fmtRfc3339 none 1691961703000017532 = ascii "2023-08-13T21:21:43.000017532Z" := by decide +kernel
 
 end Timestamps
+
+/-! ## Paths: `is_valid_path` (after the D11 fix) and `is_child_of` -/
+section Paths
+open EmitModel.PathValid
+
+/-- `is_valid_path` accepts exactly: a non-empty first segment of identifier characters (`XID_Start` or
+    `XID_Continue` — the code is lenient about the first character of the *first* segment only), followed by any
+    number of `::`-prefixed segments, each starting with an `XID_Start` character and continuing with identifier
+    characters. Stated for any classification of characters that keeps `':'` out of both classes (true of
+    `unicode_ident`). In particular: no empty segment, no single `:`, no `:::`, no leading or trailing separator,
+    no other character. -/
+theorem path_spec (xs xc : Char → Bool) (hcolon : xs ':' = false ∧ xc ':' = false) (path : List Char) :
+    isValidPath xs xc path = true ↔
+      ∃ first rest, path = first ++ joinSegs rest ∧ first ≠ [] ∧ (∀ c ∈ first, ident xs xc c = true) ∧
+        ∀ seg ∈ rest, Seg xs xc seg := by
+  constructor
+  · intro h
+    unfold isValidPath at h
+    split at h
+    · cases h
+    · rename_i hne
+      split at h
+      · cases h
+      · rename_i hhead
+        cases hr : run xs xc 0 path with
+        | none => simp [hr] at h
+        | some sep =>
+          simp only [hr, beq_iff_eq] at h
+          subst h
+          obtain ⟨first, rest, rfl, hf, hrs⟩ := grammar_of_run xs xc hcolon _ path (Nat.le_refl _) hr
+          refine ⟨first, rest, rfl, ?_, hf, hrs⟩
+          intro h0
+          subst h0
+          cases rest with
+          | nil => simp [joinSegs] at hne
+          | cons seg rest => simp [joinSegs] at hhead
+  · rintro ⟨first, rest, rfl, hne, hf, hrs⟩
+    unfold isValidPath
+    cases first with
+    | nil => exact absurd rfl hne
+    | cons c first =>
+      have hc : c ≠ ':' := ident_ne_colon xs xc hcolon c (hf c (by simp))
+      have hr := run_grammar xs xc hcolon (c :: first) rest hf hrs
+      rw [List.cons_append] at hr
+      simp [hc, hr]
+
+/-- `is_child_of` never panics and is the segment-prefix relation on the raw bytes: the child is the parent
+    itself, or the parent followed by `::` and anything. (Cutting the child inside a multi-byte character gives
+    `false`, never a panic.) -/
+theorem is_child_of_spec (child parent : List UInt8) :
+    isChildOf child parent = true ↔ child = parent ∨ ∃ rest, child = parent ++ [58, 58] ++ rest := by
+  unfold isChildOf
+  constructor
+  · intro h
+    split at h
+    · simp only [Bool.and_eq_true, beq_iff_eq, Bool.or_eq_true, List.isEmpty_iff] at h
+      obtain ⟨hp, hs⟩ := h
+      have hsplit := List.take_append_drop parent.length child
+      rcases hs with hs | hs
+      · left; rw [← hsplit, hp, hs, List.append_nil]
+      · right
+        obtain ⟨r, hr⟩ := (startsWith_iff _ _).1 hs
+        exact ⟨r, by rw [← hsplit, hp, hr, List.append_assoc]⟩
+    · cases h
+  · rintro (rfl | ⟨rest, rfl⟩)
+    · simp [isCharBoundary]
+    · have hb : isCharBoundary (parent ++ [58, 58] ++ rest) parent.length = true := by
+        unfold isCharBoundary
+        by_cases h0 : parent.length = 0
+        · simp [h0]
+        · simp [h0, isCont]
+      rw [List.append_assoc] at hb
+      simp only [hb, ↓reduceIte, List.append_assoc, List.take_left', List.drop_left', beq_self_eq_true,
+        Bool.true_and]
+      have : startsWith (58 :: 58 :: rest) [58, 58] = true := (startsWith_iff _ _).2 ⟨rest, rfl⟩
+      simp [this]
+
+/-! D11: what the unfixed machine accepted (its "middle of an identifier" arm ignored the separator state). -/
+def asciiStart (c : Char) : Bool := c.isAlpha
+def asciiCont (c : Char) : Bool := c.isAlphanum || c == '_'
+
+example : isValidPathLegacy asciiStart asciiCont "a:b:c".toList = true := by decide
+example : isValidPathLegacy asciiStart asciiCont "a::1b".toList = true := by decide
+example : isValidPath asciiStart asciiCont "a:b:c".toList = false := by decide
+example : isValidPath asciiStart asciiCont "a::1b".toList = false := by decide
+example : isValidPath asciiStart asciiCont "a::b1::c_d".toList = true := by decide
+example : isValidPath asciiStart asciiCont "1a::b".toList = true := by decide
+example : asciiStart ':' = false ∧ asciiCont ':' = false := by decide
+
+end Paths
+
+/-! ## Level and Kind -/
+section LevelKind
+open EmitModel.KindText
+
+/-- Display then parse is the identity on kinds; a typed value casts to itself. -/
+theorem kind_roundtrip (k : Kind) :
+    parseKind k.display = some k ∧ KindVal.cast (.text k.display) = some k ∧ KindVal.cast (.typed k) = some k := by
+  cases k <;> decide
+
+theorem eqIgnoreAsciiCase_iff (a b : List Char) :
+    eqIgnoreAsciiCase a b = true ↔ a.map asciiLower = b.map asciiLower := by
+  induction a generalizing b with
+  | nil => cases b <;> simp [eqIgnoreAsciiCase]
+  | cons x xs ih =>
+    cases b with
+    | nil => simp [eqIgnoreAsciiCase]
+    | cons y ys => simp [eqIgnoreAsciiCase, ih]
+
+/-- The kind parser, spelled out: a text is a kind iff, after trimming Unicode whitespace, it is the kind's
+    name up to ASCII letter case. Anything else is an error; the parser is total. -/
+theorem kind_strict (s : String) (k : Kind) :
+    parseKind s = some k ↔ (Level.trim s.toList).map asciiLower = k.display.toList := by
+  unfold parseKind parseKindChars
+  simp only [eqIgnoreAsciiCase_iff]
+  have e1 : "span".toList.map asciiLower = "span".toList := by decide
+  have e2 : "metric".toList.map asciiLower = "metric".toList := by decide
+  have ne : "span".toList ≠ "metric".toList := by decide
+  rw [e1, e2]
+  generalize List.map asciiLower (Level.trim s.toList) = w
+  cases k with
+  | span =>
+    show _ ↔ w = "span".toList
+    by_cases h : w = "span".toList
+    · rw [if_pos h]; exact ⟨fun _ => h, fun _ => rfl⟩
+    · rw [if_neg h]
+      by_cases h' : w = "metric".toList
+      · rw [if_pos h']; exact ⟨(fun e => by cases e), fun e => absurd e h⟩
+      · rw [if_neg h']; exact ⟨(fun e => by cases e), fun e => absurd e h⟩
+  | metric =>
+    show _ ↔ w = "metric".toList
+    by_cases h : w = "span".toList
+    · rw [if_pos h]; exact ⟨(fun e => by cases e), fun e => absurd (h.symm.trans e) ne⟩
+    · rw [if_neg h]
+      by_cases h' : w = "metric".toList
+      · rw [if_pos h']; exact ⟨fun _ => h', fun _ => rfl⟩
+      · rw [if_neg h']; exact ⟨(fun e => by cases e), fun e => absurd e h'⟩
+
+/-- Levels: Display then parse is the identity (proved for C17 about the same model function that the stream
+    `c17_parse` ties to `Level::from_str` / `try_from_str` / `Value::cast`). -/
+theorem level_roundtrip (l : EmitModel.Level.Level) : EmitModel.Level.parseLevel l.display = some l :=
+  EmitModel.C17.level_roundtrip l
+
+/-- The lenient level parser's tail matcher, spelled out (from C17): ASCII letters spelling (case-insensitively)
+    a prefix of the expected word, then nothing or a printable non-letter ASCII character and anything. -/
+theorem level_lenient_spec (input expected : List Char) :
+    EmitModel.Level.parseTail input expected = true ↔
+      ∃ letters tail, input = letters ++ tail ∧ (∀ c ∈ letters, EmitModel.Level.isAsciiAlpha c = true) ∧
+        (letters.map EmitModel.Level.asciiUpper).isPrefixOf expected = true ∧
+        (tail = [] ∨ ∃ c t, tail = c :: t ∧ EmitModel.Level.isAsciiAlpha c = false ∧
+          EmitModel.Level.isAsciiNonControl c = true) :=
+  EmitModel.C17.parseTail_spec input expected
+
+example : parseKind "  SpAn\t" = some .span := by decide
+example : parseKind "spans" = none := by decide
+example : parseKind "" = none := by decide
+
+end LevelKind
 
 end EmitModel.C15
